@@ -88,10 +88,11 @@ fn remove_erased<T: 'static>(op: usize, how: usize, drop: bool) {
         kani::assert(len2 <= len && len2 <= cap, "forget: vector stays valid (len within bounds)");
         kani::assert(g().total_destroyed == 0 && g().out_count == 0, "forget: nothing destroyed, nothing moved");
         if esz != 0 {
-            let (n, p, a, d, o) = obs(TW, 0, len2, w);
             if w < index {
+                let (n, p, a, d, o) = obs(TW, 0, len2, w);
                 kani::assert(post::fate_ok(0, w, n, p, a, d, o), "forget: elements before the index are unchanged");
             } else {
+                let (n, a, d, o) = obs_any(TW, 0, len2);
                 kani::assert(post::fate_safe(n, a, d, o), "forget: nothing duplicated, destroyed twice or visible moved-out");
             }
         }
